@@ -510,13 +510,24 @@ class Ref:
                 r = self.checked_call(eff, ("m", owner, key), qual, env, lambda: self.body(qual, f, benv))
                 return "NoneType" if t in ("set", "del") else r
 
-            if t == "set" and self.selected(ci, "SETATTR"):
-                # attribute-set checking requested: the operation is __setattr__, the setter is nested (suspended)
-                return self.inv_wrapped(k, self.selected(ci, "SETATTR"), lambda: self.inv_wrapped(
-                    k, self.selected(ci, "CALL"), inner) if is_public(f["name"]) else inner())
-            if is_public(f["name"]) and m.invariants(ci):
-                return self.inv_wrapped(k, self.selected(ci, "CALL"), inner)
-            return inner()
+            def around_call():
+                if is_public(f["name"]) and m.invariants(ci):
+                    return self.inv_wrapped(k, self.selected(ci, "CALL"), inner)
+                return inner()
+
+            if t == "set":
+                py = m.eff(ci, ("__setattr__", "f"))
+
+                def through_setattr():
+                    if py is not None:  # a Python-defined __setattr__ runs first and then reaches the property
+                        self.ev(("body", self.qual(py["owner"], py["func"]), {"self": "self"}))
+                    return around_call()
+
+                if self.selected(ci, "SETATTR"):
+                    # attribute-set checking requested: the operation is __setattr__, the setter is nested (suspended)
+                    return self.inv_wrapped(k, self.selected(ci, "SETATTR"), through_setattr)
+                return through_setattr()
+            return around_call()
         if t == "setattr":
             k = op["k"]
             ci = self.inst[k]
